@@ -373,7 +373,7 @@ func (osObj *VirtualOS) findMount(path string) (*Mount, string, bool) {
 			// Exact match
 			return v, "/", true
 		}
-		if strings.HasPrefix(path, k) {
+		if hasPathPrefix(path, k) {
 			// Prefix match. Keep looking to confirm this is the longest match.
 			if match == nil || len(k) > len(match.Target) {
 				match = v
@@ -388,6 +388,15 @@ func (osObj *VirtualOS) findMount(path string) (*Mount, string, bool) {
 		return match, relPath, true
 	}
 	return nil, "", false
+}
+
+// hasPathPrefix reports whether prefix is a component-wise prefix of path:
+// the match must end at a path separator, so "/tmp" does not match "/tmpfoo".
+func hasPathPrefix(path, prefix string) bool {
+	if !strings.HasPrefix(path, prefix) {
+		return false
+	}
+	return len(path) == len(prefix) || strings.HasSuffix(prefix, "/") || path[len(prefix)] == '/'
 }
 
 func (osObj *VirtualOS) ReadFile(name string) ([]byte, error) {
